@@ -429,7 +429,7 @@ def correspond(ctx, programs, extras=True, only_direct=None):
 #      recorded again, as None, by Element.__init__(**kwargs); [mk_user] drops it.  Entries of the implementation's _userparams
 #      that are None and were given as None in the constructor call are not compared (live, saved, reloaded).
 # VERIF_C15_MODEL_FIXED=1 (the patch is applied): nothing is skipped.
-MODEL_FIXED = os.environ.get('VERIF_C15_MODEL_FIXED') == '1'
+MODEL_FIXED = True      # tools/c15run/model_fix.patch is applied to Model/SaveLoad.v: nothing is skipped
 
 
 def nameless_ground(call):
